@@ -1092,6 +1092,7 @@ package mocrelay
 //@   ensures[C04] (added && !isEphemeralKind(event.Kind) && !stillThere(c, cacheKeyOf(event), event)) ==> ((event.Kind == 5 && refsKey(event, cacheKeyOf(event))) || evictedReason(c, event, old(len(c.evs))))
 //@   ensures[C05] all(k, string, (old(has(c.evs, k)) && !stillThere(c, k, old(c.evs[k])) && !evictedReason(c, old(c.evs[k]), old(len(c.evs)))) ==> old(c.evs[k]).Pubkey == event.Pubkey)
 //@   ensures[C05] (!isEphemeralKind(event.Kind) && old(suppressed(c, cacheKeyOf(event), event.Pubkey))) ==> any(id, string, old(has(c.evs, id)) && old(c.evs[id]).Kind == 5 && old(c.evs[id]).Pubkey == event.Pubkey && refsKey(old(c.evs[id]), cacheKeyOf(event)))
+//@   ensures[C05] (!isEphemeralKind(event.Kind) && !added) ==> ((old(has(c.evs, cacheKeyOf(event))) && old(c.evs[cacheKeyOf(event)]).CreatedAt >= event.CreatedAt && old(c.evs[cacheKeyOf(event)]).Pubkey == event.Pubkey) || any(id, string, old(has(c.evs, id)) && old(c.evs[id]).Kind == 5 && old(c.evs[id]).Pubkey == event.Pubkey && refsKey(old(c.evs[id]), cacheKeyOf(event))))
 //@   ensures[C05] all(id, string, (!isEphemeralKind(event.Kind) && old(has(c.evs, id)) && old(c.evs[id]).Kind == 5 && old(c.evs[id]).Pubkey == event.Pubkey && refsKey(old(c.evs[id]), cacheKeyOf(event))) ==> !added)
 //@   ensures[C05] all(k, string, (added && event.Kind == 5 && old(has(c.evs, k)) && old(c.evs[k]).Pubkey == event.Pubkey && refsKey(event, k)) ==> !stillThere(c, k, old(c.evs[k])))
 //@   ensures[C05] all(k, string, (added && event.Kind == 5 && old(has(c.evs, k)) && old(c.evs[k]).Pubkey == event.Pubkey && properRef(event, old(c.evs[k]))) ==> !stillThere(c, k, old(c.evs[k])))
